@@ -15,7 +15,7 @@ CONSTANTS
   RangeSlack = 2
   MaxSteps = 24
   InvalidateCacheOnReorg = FALSE
-  SnapshotValidated = FALSE
+  SnapshotConsumedOnLoad = FALSE
   DropReopenedWindow = FALSE
 INIT MBTInit
 NEXT MBTNext
